@@ -423,7 +423,7 @@ func ruleR06R07(c *Ctx) {
 				cc := cl.(*ast.CaseClause)
 				if cc.List == nil {
 					hasDefault = true
-					defaultPanics = endsInPanic(info, cc.Body)
+					defaultPanics = endsInPanic(info, cc.Body) || endsInErrorReturn(info, cc.Body)
 				}
 				for _, e := range cc.List {
 					if tv, ok := info.Types[e]; ok && tv.Value != nil {
@@ -527,6 +527,14 @@ func (c *Ctx) leafPedigree(u *FuncUnit, fs *FactSet, arg ast.Expr) string {
 					}
 				}
 			}
+		}
+	}
+	// an unsafe.Pointer parameter of a function literal handed to a walker (walkLeaves(root,
+	// func(ptr unsafe.Pointer) bool {…})): the walker only calls it, and every such call passes
+	// the pointer of a reference known to be a leaf
+	if id, ok := ast.Unparen(arg).(*ast.Ident); ok && u.Lit != nil && u.Parent != nil && c.pedigreeDepth < 3 {
+		if why := c.visitorParamPedigree(u, id); why != "" {
+			return why
 		}
 	}
 	// an unsafe.Pointer parameter of a helper: every call site must hand over a leaf pointer
@@ -721,7 +729,6 @@ func (c *Ctx) pointeeKindDepth(u *FuncUnit, ptr ast.Expr, depth int) int64 {
 	return -1
 }
 
-
 // leafReturning: u returns an unsafe.Pointer that, whenever it is not nil, is X.pointer of a
 // reference X known to be a leaf at that return.
 func (c *Ctx) leafReturning(u *FuncUnit) bool {
@@ -772,4 +779,154 @@ func (c *Ctx) leafReturning(u *FuncUnit) bool {
 	}
 	c.lrMemo[u] = 2
 	return false
+}
+
+// visitorSites: lit (the literal of unit u) is passed directly as a func-typed argument of a call
+// of a declared library function that does nothing with that parameter but call it. Returns the
+// walker, and the calls of the parameter inside it (nil if the shape is different).
+func (c *Ctx) visitorSites(u *FuncUnit) (walker *FuncUnit, calls []*ast.CallExpr) {
+	if u.Lit == nil || u.Parent == nil {
+		return nil, nil
+	}
+	info := c.m.Info
+	var at *ast.CallExpr
+	pi := -1
+	ast.Inspect(u.Parent.Body, func(n ast.Node) bool {
+		call, ok := n.(*ast.CallExpr)
+		if !ok {
+			return true
+		}
+		for i, a := range call.Args {
+			if ast.Unparen(a) == ast.Expr(u.Lit) {
+				at, pi = call, i
+			}
+		}
+		return true
+	})
+	if at == nil {
+		return nil, nil
+	}
+	w := c.m.calleeUnit(at)
+	if w == nil || w.Lit != nil || w.Decl == nil || w.Body == nil {
+		return nil, nil
+	}
+	var pv *types.Var
+	k := 0
+	for _, f := range w.Decl.Type.Params.List {
+		for _, nm := range f.Names {
+			if k == pi {
+				pv, _ = info.Defs[nm].(*types.Var)
+			}
+			k++
+		}
+	}
+	if pv == nil {
+		return nil, nil
+	}
+	if _, isFn := pv.Type().Underlying().(*types.Signature); !isFn {
+		return nil, nil
+	}
+	onlyCalled := true
+	called := map[*ast.Ident]bool{}
+	ast.Inspect(w.Body, func(n ast.Node) bool {
+		if call, ok := n.(*ast.CallExpr); ok {
+			if id, ok := ast.Unparen(call.Fun).(*ast.Ident); ok && info.ObjectOf(id) == pv {
+				called[id] = true
+				calls = append(calls, call)
+			}
+		}
+		return true
+	})
+	ast.Inspect(w.Body, func(n ast.Node) bool {
+		if id, ok := n.(*ast.Ident); ok && info.ObjectOf(id) == pv && !called[id] {
+			onlyCalled = false
+		}
+		return true
+	})
+	if !onlyCalled || len(calls) == 0 {
+		return nil, nil
+	}
+	return w, calls
+}
+
+func (c *Ctx) visitorParamPedigree(u *FuncUnit, id *ast.Ident) string {
+	info := c.m.Info
+	v, _ := info.ObjectOf(id).(*types.Var)
+	if v == nil {
+		return ""
+	}
+	j, k := -1, 0
+	for _, f := range u.Lit.Type.Params.List {
+		for _, nm := range f.Names {
+			if info.Defs[nm] == v {
+				j = k
+			}
+			k++
+		}
+	}
+	if j < 0 || assignedAnywhere(info, u.Body, v) {
+		return ""
+	}
+	w, calls := c.visitorSites(u)
+	if w == nil {
+		return ""
+	}
+	c.pedigreeDepth++
+	defer func() { c.pedigreeDepth-- }()
+	leafV := c.m.LeafKind.Value
+	for _, call := range calls {
+		if j >= len(call.Args) {
+			return ""
+		}
+		a := call.Args[j]
+		// the call may sit in a nested literal of the walker: find the unit that holds it
+		holder := w
+		for _, cu := range c.m.Units {
+			if cu.Lit != nil && cu.Lit.Pos() <= call.Pos() && call.End() <= cu.Lit.End() && cu.Lit.Pos() >= w.Body.Pos() && cu.Lit.End() <= w.Body.End() {
+				if holder == w || cu.Lit.Pos() >= holder.Lit.Pos() {
+					holder = cu
+				}
+			}
+		}
+		var at *FactSet
+		c.e.flow(holder).walk(func(n ast.Node, fs *FactSet, stmt ast.Node, b *cfg.Block) {
+			if n == ast.Node(call) && at == nil {
+				at = fs
+			}
+		})
+		if at == nil {
+			return ""
+		}
+		okSite := false
+		if psel, isSel := ast.Unparen(a).(*ast.SelectorExpr); isSel && psel.Sel.Name == "pointer" && c.isNodeRefType(info.TypeOf(psel.X)) {
+			if known, _ := at.tagOf(psel.X); (known != nil && *known == leafV) || c.leafByElimination(at, psel.X) {
+				okSite = true
+			}
+		} else if c.leafPedigree(holder, at, a) != "" {
+			okSite = true
+		}
+		if !okSite {
+			return ""
+		}
+	}
+	return fmt.Sprintf("parameter of a visitor handed to %s, which only calls it: each of the %d calls passes the pointer of a reference known to be a leaf", w.Name, len(calls))
+}
+
+// endsInErrorReturn: the statement list ends with a return whose last result is a non-nil value
+// of type error (an unknown kind is reported, not passed over).
+func endsInErrorReturn(info *types.Info, body []ast.Stmt) bool {
+	if len(body) == 0 {
+		return false
+	}
+	rs, ok := body[len(body)-1].(*ast.ReturnStmt)
+	if !ok || len(rs.Results) == 0 {
+		return false
+	}
+	last := rs.Results[len(rs.Results)-1]
+	tv, ok := info.Types[last]
+	if !ok || tv.IsNil() || tv.Type == nil {
+		return false
+	}
+	errT := types.Universe.Lookup("error").Type()
+	return types.AssignableTo(tv.Type, errT) && types.Implements(tv.Type, errT.Underlying().(*types.Interface))
 }
